@@ -1,6 +1,7 @@
 package vc
 
 import (
+	"os"
 	"fmt"
 	"go/token"
 	"go/types"
@@ -1017,9 +1018,17 @@ func (fr *Frame) callHooks(st *State, names string, args []Val, pos token.Pos) {
 				fr.oblige(st, "callsite", nm, g, &cc, pos)
 			}
 		}
+		if CoverCallsites {
+			// vacuity probe: a call whose arguments a contract pins must be reachable under that contract
+			fr.oblige(st, "cover", "callsite:"+name, False, nil, pos)
+		}
 	}
 	fr.ghostCallUpdates(st, name, args, nil, false)
 }
+
+// CoverCallsites adds a vacuity probe at every call whose arguments a contract pins (developer runner and
+// thorough tier).
+var CoverCallsites = os.Getenv("GOVC_COVER_CALLSITES") != ""
 
 func (fr *Frame) ghostCallUpdates(st *State, names string, args []Val, res []Val, after bool) {
 	if strings.Contains(names, "|") {
